@@ -475,6 +475,13 @@ func (s *Server) handleSearchRecords(w http.ResponseWriter, r *http.Request) {
 		embeddingTime = time.Since(startEmbed)
 	}
 
+	// A nearest-neighbour or radius search compares the query with the stored
+	// vectors; a query of another size would panic in the distance functions.
+	if (searchArgs.K != 0 || searchArgs.Radius != 0) && len(searchArgs.Vector) != collection.DimensionCount {
+		http.Error(w, fmt.Sprintf("Vector size does not match the collection: expected %d, got %d", collection.DimensionCount, len(searchArgs.Vector)), http.StatusBadRequest)
+		return
+	}
+
 	startSearch := time.Now()
 	results := collection.Search(searchArgs)
 	searchTime := time.Since(startSearch)
